@@ -168,6 +168,8 @@ fn history_text(u: &[T], n: usize, hist: &[usize]) -> String {
 /// Expands one history: replays it, then tries every action from the reached state.
 /// `twin`: run on the tagged-list encoding and compare with the direct run (C20).
 pub fn expand(u: &[T], hist: &[usize], family: &str, index: usize, twin: bool) -> Local {
+    // reference side: `Some(t)` denotes `t` (see DESIGN.md, C20)
+    let um: Vec<T> = u.iter().map(|t| t.strip_some()).collect();
     let mut l = Local::default();
     l.data = json!({"history": hist, "twin": twin});
     crate::ev::progress(family, index, &l.data);
@@ -179,7 +181,7 @@ pub fn expand(u: &[T], hist: &[usize], family: &str, index: usize, twin: bool) -
             let env: Env<DU, DE> = Env::new(NV);
             let terms: Vec<LTerm<DU, DE>> = u
                 .iter()
-                .map(|t| if twin { env.enc(&t.to_tagged_list()) } else { env.enc(t) })
+                .map(|t| if twin { env.enc(&t.strip_some().to_tagged_list()) } else { env.enc(t) })
                 .collect();
             *c = Some((token, env, terms));
         }
@@ -196,7 +198,7 @@ pub fn expand(u: &[T], hist: &[usize], family: &str, index: usize, twin: bool) -
                     return;
                 }
             }
-            model.unify(&u[i], &u[j]);
+            model.unify(&um[i], &um[j]);
         }
         let pre_key = state_key(env, &st);
         let pre_text = history_text(u, n, hist);
@@ -209,7 +211,7 @@ pub fn expand(u: &[T], hist: &[usize], family: &str, index: usize, twin: bool) -
                 format!("{}, {} == {}", pre_text, u[i], u[j])
             };
             let mut m2 = model.clone();
-            let expected = m2.unify(&u[i], &u[j]);
+            let expected = m2.unify(&um[i], &um[j]);
             let res = guarded(|| st.clone().unify(&terms[i], &terms[j]));
             // (f) the pre-state is a value: untouched by the call
             if state_key(env, &st) != pre_key {
@@ -227,7 +229,7 @@ pub fn expand(u: &[T], hist: &[usize], family: &str, index: usize, twin: bool) -
                     } else {
                         // distinguish clash from occurs-check refusals
                         let mut m3 = model.clone();
-                        let occurs = unify_no_occurs(&mut m3, &u[i], &u[j]);
+                        let occurs = unify_no_occurs(&mut m3, &um[i], &um[j]);
                         *l.hist.entry(if occurs { "refused-occurs-check".into() } else { "refused-clash".into() }).or_insert(0) += 1;
                     }
                 }
